@@ -136,7 +136,7 @@ class ModelProc:
 # model executables (coq/bin/<name>) each property's check runs; their Extract*.v closures are built with the
 # property file.  A property not listed here falls back to building the whole development.
 PROP_BINS = {
-    "C01": ["monitor"], "C02": ["monitor"], "C03": ["monitor"], "C04": ["monitor"], "C12": ["monitor"],
+    "C01": ["monitor", "algo"], "C02": ["monitor"], "C03": ["monitor", "algo"], "C04": ["monitor"], "C12": ["monitor"],
     "C05": ["monitor", "resolver"], "C06": ["monitor", "cursor"],
     "C08": ["codec"], "C09": ["store"], "C11": ["state", "stateguard"], "C13": ["path"], "C16": ["prov"], "C17": ["sched"],
     "C18": ["loop", "notify"], "C19": ["cache"], "C20": ["smart"], "C15": ["thread", "monitor"], "C14": ["event", "monitor"], "C10": ["fault", "monitor"], "C07": ["crash", "monitor"],
